@@ -81,6 +81,12 @@ impl TokenRing {
         self.las_state.is_valid()
     }
 
+    /// Part of the state that the `Debug` rendering does not show (for the verification harness).
+    #[cfg(feature = "verif-hooks")]
+    pub fn verif_last_witnessed_sender(&self) -> Option<crate::Address> {
+        self.last_witnessed_sender
+    }
+
     pub fn this_station(&self) -> crate::Address {
         self.this_station
     }
